@@ -30,6 +30,8 @@ CFG = {'module': 'Dnp3.Props.C09',
                   'qualifier tables, the free-format table, function / qualifier codes, control masks, '
                   'attribute type codes, g70 offsets: regenerated from source (Gen/Variations.lean, '
                   'Gen/Qualifiers.lean, Gen/AppCodes.lean)',
+                  'hand-written Lean model of HeaderWriter::write_prefixed_items (Model/RequestBuilder: cursor '
+                  'checks, item loop, checked count) tied by differential execution (engine parse, op build)',
                   'hooks/parse_probe.rs + generated hooks/parse_probe_gen.rs (expose ParsedFragment / '
                   'iterators / builders; no behaviour change)',
                   'reference object sizes (IEEE 1815) and reference validation rules inside '
@@ -47,8 +49,12 @@ CFG = {'module': 'Dnp3.Props.C09',
                'round trip, walk exactness (accepted => input is the concatenation of the header images, '
                'payload length is what variation/qualifier/count imply), well-founded termination with '
                'strict progress, control-octet and header round trips, iterator agreement (count, indices, '
-               'slices; octet-string ranges up to and including index 65535, no iterator panic); model tied '
-               'to the code by the regenerated tables and by differential execution of the real parser, '
+               'slices; octet-string ranges up to and including index 65535, no iterator panic), the '
+               'master\'s count-and-prefix header writer (CommandBuilder -> write_prefixed_items: for every '
+               'capacity, buffer content, index width and item list the header is either written completely '
+               '- exactly its image, which parses back to the items that were built - or the write fails '
+               'with a WriteError, in particular when the count is not expressible in the index type); model '
+               'tied to the code by the regenerated tables and by differential execution of the real parser, '
                'iterators, Display and builders',
  'level_note': 'trusted: Lean kernel (+ propext/Classical.choice/Quot.sound), translate.py + '
                'gen_variations.py, the correspondence harness; the Rust is modelled, not verified',
